@@ -111,6 +111,21 @@ func runC18(c E1Case) (out core.Outcome) {
 		r.sweep(true)
 		return
 	}
+	// the same, found by the scheduler itself: a call that was let past the enqueue point (there was room, or a context
+	// had ended) waits inside the library at the terminal state, where nothing can wake it any more
+	for _, t := range r.tasks {
+		td, _ := t.Data.(*e1TaskData)
+		if td != nil && td.call != nil && td.call.End == 0 && td.call.SawEnqueue && t.Blocked() && t.Label() == "enqueue.before" {
+			r.baseClasses()
+			if nonblocking {
+				out.Violation = core.Viol("C18/nonblocking-call-blocked", "%s in non-blocking mode went past enqueue and did not return (queue full then: %v): task %s is blocked inside the library at the terminal state", td.call.Op.Op, td.call.FullThen, t.Name)
+			} else {
+				out.Violation = core.Viol("C18/blocking-call-stuck-with-room", "%s resumed with room or a finished context (full=%v ctxdone=%v chandone=%v) did not return: task %s is blocked inside the library at the terminal state", td.call.Op.Op, td.call.FullThen, td.call.CtxDoneThen, td.call.ChanDoneThen, t.Name)
+			}
+			r.sweep(true)
+			return
+		}
+	}
 	r.baseClasses()
 	if msg := r.escapedPanic(); msg != "" {
 		out.Violation = core.Viol("C18/panic-escaped", "a write call did not accept or reject the payload but panicked: %s", msg)
